@@ -1,6 +1,8 @@
 import Cherab.Drv.Proto
 import Cherab.Model.Repository
 import Cherab.Gen.RepoPaths
+import Cherab.Model.RepoWrite
+import Cherab.Gen.RepoWrites
 open Cherab.Drv Cherab.Repository
 
 /-!
@@ -214,6 +216,20 @@ def step (fs : FS) (ts : List String) : FS × String :=
       return (fs, hex (encodeTransition u l))
     | "wf" =>
       return (fs, " ".intercalate ([T.addMatches, T.getMatches, T.shapesOk, T.disjointOk, T.rootPassed].map fB))
+    | "wseg" => do
+      -- one file write of the named writer (table generated from the source) on a stored file, under an oracle that makes
+      -- the first statement of the given kind raise: "validate" = a conversion/check, "json" = JSON rejects the object
+      let name ← pStr; let kind ← tok
+      match Cherab.Gen.RepoWrites.writeSegments.find? (fun e => e.1 == name) with
+      | none => return (fs, "missing")
+      | some (_, steps) =>
+        let hits : Cherab.RepoWrite.WStep → Bool := fun st =>
+          (kind == "validate" && st == .validate) || (kind == "json" && (st == .serialise || st == .dumpCaller))
+        let first := (steps.findIdx? hits).getD steps.length
+        let r := Cherab.RepoWrite.run steps (fun i => kind != "none" && i == first) (.valid (0 : Nat)) 1
+        let d := match r.1 with
+          | .valid 0 => "old" | .valid _ => "new" | .truncated => "truncated" | .absent => "absent"
+        return (fs, s!"{if r.2 then "ok" else "err"} {d} {fB (Cherab.RepoWrite.safe steps)}")
     | "reset" => return ([], "ok")
     | t => throw s!"bad op {t}"
   match run.run ts with
